@@ -166,6 +166,9 @@ class FileReader(FileBase):
 
         filenames = self.sinfo.get_info_list("filename")
         super().__init__(filenames, mode)
+        # Start at the first data byte: a read before any seek must not
+        # return header bytes.
+        self._seek2hdr(0)
 
     @property
     def cur_data_pos_file(self) -> int | None:
